@@ -7,6 +7,7 @@ association of harness/scp_driver.py with generated handler behaviours.  Each ca
 echoScp, statusOnlyScp, nScp) for which Props/C20.lean proves the property under stated hypotheses,
 and (2) checked directly against the property on the real code's responses (`oracle`).
 """
+from harness import poolinit as _e2e_exit
 import itertools
 import logging
 
@@ -333,7 +334,7 @@ def msgid_e2e(_=None):
 def msgid_check(ctx):
     import multiprocessing as mp
 
-    pool = mp.get_context("fork").Pool(processes=1, maxtasksperchild=1)
+    pool = mp.get_context("fork").Pool(processes=1, maxtasksperchild=1, initializer=_e2e_exit.no_join_at_exit)
     try:
         res = pool.apply(msgid_e2e)
     finally:
